@@ -45,8 +45,13 @@ Definition stage_eqb (a b : stage) : bool :=
 Record exts := mkExts { x_pipelining : bool; x_starttls : bool; x_auth : bool; x_8bitmime : bool }.
 Definition no_exts : exts := mkExts false false false false.
 
+(* the class digit of an enhanced status code at the start of the reply TEXT ("550 4.2.1 ..."),
+   if there is one; it may contradict the reply code *)
+Inductive esc := ENone | E2 | E4 | E5.
+
 Record script := mkScript {
   reply : stage -> outcome;
+  rtext : stage -> esc;    (* what the text of the reply to that stage starts with *)
   exts1 : exts;            (* extensions advertised by a 250 reply to the first EHLO/LHLO *)
   exts2 : exts }.          (* ... to the EHLO after STARTTLS *)
 
@@ -73,8 +78,11 @@ Definition is_error (c : rclass) : bool :=      (* Reply.is_error *)
 Inductive cls := Perm | Trans.
 Definition cls_eqb (a b : cls) : bool :=
   match a, b with Perm, Perm | Trans, Trans => true | _, _ => false end.
-Definition factory (c : rclass) : cls :=         (* SmtpRelayError.factory *)
+Definition factory (c : rclass) : cls :=         (* reply.code[0] == '5' *)
   match c with C5 | C500 => Perm | _ => Trans end.
+(* SmtpRelayError.factory(reply): it is handed the whole reply - code and text (whose enhanced
+   status code is kept in reply._esc) - and decides by the code *)
+Definition factory_reply (c : rclass) (e : esc) : cls := factory c.
 
 Inductive abort :=
 | ARelay (c : cls)                 (* SmtpRelayError *)
@@ -238,7 +246,7 @@ Section Client.
   (* mraise SmtpRelayError.factory(reply) *)
   Definition raise_factory {A} (s : stage) : M A :=
     c <- code_of s ;;
-    match c with Some c => mraise (ARelay (factory c)) | None => mraise AForeign end.
+    match c with Some c => mraise (ARelay (factory_reply c (rtext sc s))) | None => mraise AForeign end.
   Definition pipelining : M bool := mget (fun t => x_pipelining (xt t)).
 
   (* ---- slimta.smtp.client.Client / LmtpClient ---- *)
@@ -326,7 +334,7 @@ Section Client.
     c_starttls ;;; e <- is_error_of StartTls ;;
     if e && c_tls_required cfg then raise_factory StartTls else mret tt.
   Definition r_authenticate : M unit :=
-    c <- c_auth ;; if is_error c then mraise (ARelay (factory c)) else mret tt.
+    c <- c_auth ;; if is_error c then mraise (ARelay (factory_reply c (rtext sc Auth))) else mret tt.
   Definition r_handshake : M unit :=
     (if c_tls_immediately cfg then r_banner ;;; r_ehlo false
      else r_banner ;;; r_ehlo false ;;;
@@ -340,7 +348,7 @@ Section Client.
   Definition r_mailfrom (m : N) (ok : bool) : M unit :=
     mcatch (c_mailfrom m ok) is_foreign address_error ;;; c <- code_of (Mail m) ;;
     match c with
-    | Some c => if is_error c then mraise (ARelay (factory c)) else mret tt
+    | Some c => if is_error c then mraise (ARelay (factory_reply c (rtext sc (Mail m)))) else mret tt
     | None => mret tt
     end.
   Fixpoint r_rcpttos (m i : N) (rs : list bool) : M unit :=
@@ -357,7 +365,7 @@ Section Client.
         match c with
         | None => mraise AForeign
         | Some c => r <- rcpt_errors m (i + 1) rs' ;;
-                    mret ((if is_error c then Some (factory c) else None) :: r)
+                    mret ((if is_error c then Some (factory_reply c (rtext sc (Rcpt m i))) else None) :: r)
         end
     end.
   Fixpoint all_some (l : list (option cls)) : option (list cls) :=
@@ -412,7 +420,7 @@ Section Client.
         match c, nth_error addrs (N.to_nat j) with
         | Some c, Some a =>
             r <- lmtp_data m addrs ow ;;
-            if is_error c then mret ((a, Some (TFailed (factory c))) :: fst r, true)
+            if is_error c then mret ((a, Some (TFailed (factory_reply c (rtext sc (Eod m j))))) :: fst r, true)
             else mret ((a, Some TDelivered) :: fst r, snd r)
         | _, _ => mraise AForeign
         end
@@ -648,17 +656,19 @@ Definition pipe_final (r : pres) (i : nat) : final :=
 
 Inductive hdr :=
 | HNone                          (* no X-Smtp-Reply header, or it does not match ^\s*(\d\d\d)\s*; *)
-| HCode (code : N) (has_command : bool).   (* three digits; a command="..." parameter present *)
+| HCode (code : N) (has_command : bool) (e : esc).   (* three digits; a command="..." parameter
+                                    present; enhanced status code at the start of message="..." *)
 Inductive http_down :=
 | HRefused                       (* connecting fails: socket.error *)
 | HSilent                        (* no response: the relay timeout fires *)
 | HBroken                        (* not an HTTP response / closed early: http.client exception *)
 | HResp (status : N) (h : hdr).
 (* _parse_smtp_reply_header: Reply(code, ...) raises ValueError unless code is [1-5]dd -> None (d15) *)
+Definition header_esc (h : hdr) : esc := match h with HCode _ _ e => e | HNone => ENone end.
 Definition header_class (h : hdr) : option rclass :=
   match h with
   | HNone => None
-  | HCode c _ =>
+  | HCode c _ _ =>
       if (c <? 100) || (599 <? c) then None
       else if c <? 200 then Some C2      (* 1xx: not an error *)
       else if c <? 300 then Some C2
@@ -674,7 +684,7 @@ Definition http_attempt (d : http_down) : hres :=
   | HResp status h =>
       if (200 <=? status) && (status <? 300) then HOk          (* status.startswith('2') *)
       else match header_class h with
-           | Some c => HExc (factory c)
+           | Some c => HExc (factory_reply c (header_esc h))
            | None => if (400 <=? status) && (status <? 500) then HExc Perm else HExc Trans
            end
   end.
@@ -741,3 +751,55 @@ Definition mx_attempt (rcpt0 : list N) (forced : bool) (mx : dns_ans (N * N)) (a
                match choose_mx recs attempts with Some d => MxRelay d | None => MxPerm end
            end
   end.
+
+(* ---- MxSmtpRelay as an object: the MxRecord cache across attempts ---- *)
+Record mxrec := mkMxrec {
+  mr_records : option (list dest);     (* MxRecord._records: None before/after "nothing found" *)
+  mr_exp : N }.                        (* MxRecord._expiration: 0 = never resolved / nothing cacheable *)
+Definition mxrec0 : mxrec := mkMxrec None 0.
+Definition mx_expired (r : mxrec) (now : N) : bool := (mr_exp r =? 0) || (mr_exp r <=? now).
+Record mx_step := mkMxStep {
+  s_domain : option N;                 (* None: recipients[0] has no '@' *)
+  s_now : N;                           (* time.time() *)
+  s_mx : dns_ans (N * N);              (* what the resolver would answer now, if asked *)
+  s_a : dns_ans unit;
+  s_ttl : N;                           (* ttl of every record of the answers *)
+  s_attempts : N }.
+(* MxRecord._resolve: the new (records, expiration), or the DNSError *)
+Definition mx_resolve (st : mx_step) : (option (list dest) * N) + unit :=
+  let exp (n : nat) := match n with O => 0 | _ => s_now st + s_ttl st end in
+  match s_mx st with
+  | DnsOk l => inl (Some (map (fun r => DHost (snd r)) (mx_sort l)), exp (length l))
+  | DnsFail => inr tt
+  | DnsNotFound =>
+      match s_a st with
+      | DnsOk l => inl (Some (map (fun _ => DDomain) l), exp (length l))
+      | DnsNotFound => inl (None, 0)
+      | DnsFail => inr tt
+      end
+  end.
+Definition mx_finish (r : mxrec) (attempts : N) : mx_out :=
+  match mr_records r with
+  | None | Some [] => MxPerm           (* `if not self._records: raise ValueError` *)
+  | Some recs => match choose_mx recs attempts with Some d => MxRelay d | None => MxPerm end
+  end.
+(* one MxSmtpRelay.attempt on the cache (domain -> MxRecord); also: was the resolver asked *)
+Definition mx_attempt_st (cache : list (N * mxrec)) (st : mx_step) : mx_out * bool * list (N * mxrec) :=
+  match s_domain st with
+  | None => (MxPerm, false, cache)
+  | Some d =>
+      let r := match dget cache d with Some r => r | None => mxrec0 end in    (* setdefault *)
+      if mx_expired r (s_now st) then
+        match mx_resolve st with
+        | inr _ => (MxTrans, true, dset cache d r)          (* DNSError: the record is left as it was *)
+        | inl (recs, exp) => let r' := mkMxrec recs exp in (mx_finish r' (s_attempts st), true, dset cache d r')
+        end
+      else (mx_finish r (s_attempts st), false, dset cache d r)
+  end.
+Fixpoint mx_run (cache : list (N * mxrec)) (steps : list mx_step) : list (mx_out * bool) :=
+  match steps with
+  | [] => []
+  | st :: steps' => let '(o, q, cache') := mx_attempt_st cache st in (o, q) :: mx_run cache' steps'
+  end.
+Definition mx_cache_after (steps : list mx_step) : list (N * mxrec) :=
+  fold_left (fun c st => snd (mx_attempt_st c st)) steps [].
